@@ -4,4 +4,13 @@ EXTENDS QueueSpec
 \* widths: zero-width alone is refused; zero-width next to narrow, byte-sized, straddling and 64-bit records
 MCWidths == {<<8>>, <<3>>, <<0, 3>>, <<1, 12>>, <<0, 0>>, <<2, 2, 0>>, <<64, 1>>, <<0, 9, 0>>, <<5, 16>>}
 MCWidthsSmall == {<<3>>, <<0, 3>>, <<0, 0>>, <<1, 12>>}
+
+\* ---- whole files: every complete sequence of packets the environment can produce (for replay on the real reader)
+RECURSIVE FilesFrom(_)
+FilesFrom(e) == (IF AllDeliveredOf(e) THEN {<<>>} ELSE {})
+                \cup UNION {{<<pkt>> \o f : f \in FilesFrom(EnvAfterOf(e, pkt))} : pkt \in NextPacketsOf(e)}
+EnvFor(w, n, other) == [n |-> n, decl |-> n, rem |-> QTup(LAMBDA i : StreamBytes(n, w[i]), 1, Len(w)), other |-> other]
+\* printed as one line per file: "QFILE " + JSON of [w, n, packets]
+ExportWidths == {<<3>>, <<0, 3>>, <<1, 12>>, <<2, 2, 0>>, <<0, 9, 0>>, <<5, 16>>, <<8, 0>>, <<12, 0, 1>>, <<7, 7>>, <<33>>}
+TotalBytes(w, n) == QSum(QTup(LAMBDA i : StreamBytes(n, w[i]), 1, Len(w)), 1)
 =============================================================================
